@@ -27,7 +27,7 @@ TIERS = {
 }
 ENGINE_OFFSET = {'H': 0, 'N': 10 ** 9, 'T': 2 * 10 ** 9}
 # engine S (stratified pre-emption sweep): boundaries tried per callable (0 = every boundary)
-SWEEP_CAP = {'quick': 4, 'thorough': 0}
+SWEEP_CAP = {'quick': 4, 'thorough': 2500, 'full': 0}
 
 
 def _watchdog(seconds, what):
@@ -77,10 +77,10 @@ def run_sweep(seed, cap, workers=16, progress=True, chunk=500):
     jobs = []
     for i in range(len(NAMES)):
         nb = int(max(calls.get(NAMES[i], 0), 2) * 1.05) + 2
-        if cap == 0 and nb > chunk:
+        if (cap == 0 or cap > chunk) and nb > chunk:
             # the boundaries of a long callable are split over several jobs (same seeded pair in each)
             for lo in range(1, nb + 1, chunk):
-                jobs.append((seed, i, 0, lo, min(nb, lo + chunk - 1)))
+                jobs.append((seed, i, cap, lo, min(nb, lo + chunk - 1)))
         else:
             jobs.append((seed, i, cap))
     # heaviest first so that the tail of the batch is short
@@ -90,7 +90,7 @@ def run_sweep(seed, cap, workers=16, progress=True, chunk=500):
     with ProcessPoolExecutor(workers, mp_context=mp.get_context('fork'), initializer=_init_worker) as ex:
         for k, r in enumerate(ex.map(_sweep_job, jobs, chunksize=1)):
             res.append(r)
-            if progress and cap == 0 and (k + 1) % 100 == 0:
+            if progress and (cap == 0 or cap > 100) and (k + 1) % 100 == 0:
                 sys.stdout.write('  .. sweep %d/%d jobs, %.0fs\n' % (k + 1, len(jobs), _perf() - t0))
                 sys.stdout.flush()
     return res
@@ -436,6 +436,20 @@ def cmd_batch(tier, argv):
     return 0
 
 
+def cmd_sweep_full(argv):
+    """Engine S alone, every boundary of every callable (about 270 000 runs, 2-3 h); no evidence file is written."""
+    seed = int(os.environ.get('VERIF_SEED', '1'))
+    wd = _watchdog(8 * 3600, 'sweep-full')
+    runner.boot()
+    t0 = _perf()
+    results = run_sweep(seed, 0)
+    n_new, n_known, trouble = report_violations(results, seed, 'sweep')
+    print('%s: full boundary sweep, %d runs over %d callables, %.0fs wall' % (
+        PROPERTY, sum(r['runs'] for r in results), len(set(r['pair'][0] for r in results if r['pair'])), _perf() - t0))
+    wd.cancel()
+    return 1 if n_new else (2 if trouble else 0)
+
+
 def cmd_replay(argv):
     path = argv[0]
     doc = json.load(open(path))
@@ -521,6 +535,8 @@ def main(argv):
             return cmd_batch(cmd, rest)
         if cmd == 'replay':
             return cmd_replay(rest)
+        if cmd == 'sweep-full':
+            return cmd_sweep_full(rest)
         if cmd == 'selftest-determinism':
             return cmd_selftest_determinism(rest)
         if cmd == '_digests':
